@@ -196,7 +196,7 @@ def run(rep, tier, seed):
     rep.level = "fault_enumeration"
     rng = random.Random(seed * 1000003 + 6)
     quick = tier == "quick"
-    n = 6000 if quick else 120000
+    n = 15000 if quick else 120000
     mg = GM.ModelGen(rng, 3, 5, 8)
     items = []
     base_models = []
